@@ -517,6 +517,7 @@ class FSM(addons.AddonPersistence, block.SBlock):
             return True
         finally:
             self._fsm_event_active = False
+            self._next_event = None     # could be left over after an exception
 
 
     def _event(self, etype: str|block.EventType, data: Mapping) -> bool:
